@@ -12,7 +12,7 @@ CHECK = {
     "engines": ["space", "authsim"],
     "technique": "bounded-exhaustive tamper enumeration on the real default chain (… edns … cache … resolver …) resolving over loopback UDP/TCP against a scripted signed hierarchy (zonemodel + authsim); every client-visible reply judged against zone ground truth",
     "level_text": "A fixed universe (root -> t. -> {s.t. NSEC with wildcard/CNAMEs/ENT, h.t. NSEC3 with a same-key-tag clone key, o.t. NSEC3 opt-out with an unsigned child, u.t. proven insecure, p.t.+c.p.t. on one server with c unsigned, d.t. with DNAMEs into s.t. and into the insecure u.t.}; RSASHA256 / ECDSAP256 / ED25519 rotated over the levels) is signed with miekg/dns and served by one socket per server. For every query (name x {A,AAAA,TXT,DS,DNSKEY,CNAME} x DO x CD x AD-requested) the untampered resolution path (3-9 upstream exchanges incl. DS/DNSKEY sub-queries) is recorded from the server log; then for EVERY position on that path and EVERY tamper kind (33; thorough 35: rdata flip in answer/authority, RRSIG byte flip, signer -> sibling / descendant / qname / ancestor(+garbage, replaced or injected ahead), labels +-1, window expired / not yet valid, genuine-but-expired / not-yet-valid replayed signatures over altered data, all RRSIGs dropped, DS dropped / swapped for a sibling's, NSEC/NSEC3 dropped / replaced by a foreign zone's, out-of-zone answer / authority injection, same-tag clone key first, wildcard RRSIG replayed over an existing name, full downgrade, unsigned forgery, partial unsigned forgery, forged NXDOMAIN / NODATA / positive, attacker key added to a DNSKEY RRset, data re-signed with an attacker key, altered data whose RRSIGs name the query name as signer) exactly that one response is rewritten and the query re-resolved from a cold resolver+cache; plus the two-step families attacker-key x attacker-resign (same zone) and stripped referral x later unsigned forgery; plus a run with the trust anchors removed. After each run the same query and two related ones are asked again (cache-served history). Oracle: CD=0 and model status secure => reply is SERVFAIL (+EDE when the query had OPT) or the model's truth (rcode, answer chain RRsets as sets, TTL <= signed TTL; a NOERROR prefix of the alias chain is accepted); every answer-chain RRset owned under an unbroken signed chain equals the zone's data even when the final status is insecure; AD=1 => reply is the truth (or an alias prefix), every RRset in answer and authority is authentic secure zone data, status secure when the reply asserts the terminal step, and DO or AD was requested and CD=0; no anchors => SERVFAIL for every CD=0 query.",
-    "level_note": "Trusted: zonemodel's authoritative answers and oracle (unit 'model' re-verifies every signature, DS and denial with miekg/dns only). The attacker owns no key of the path: tampers rewrite responses, they never re-sign with zone keys (except the 'replay' kinds, which present signatures the zone itself made for another validity window). One NS and one address per zone make the fan-out sequential; a run in which an ask waited out an upstream timeout although nothing was scripted to be dropped (lost loopback datagram / starved process) is discarded and repeated; every violation is re-run 5x from a cold state and reduced (a violating pair is replaced by one of its tampers when that alone violates) before it is reported. SERVFAIL is always an allowed answer (liveness is not judged): the unchanged tree answers SERVFAIL for NSEC empty-non-terminal NODATA and for wildcard NODATA of type DS under NSEC3.",
+    "level_note": "A reply that ends in an alias without the target's data although the model's chain continues under secure zones is a violation (class alias-without-target) since /repo 48664ac; before that repair the oracle accepted it as a prefix of the truth. Trusted: zonemodel's authoritative answers and oracle (unit 'model' re-verifies every signature, DS and denial with miekg/dns only). The attacker owns no key of the path: tampers rewrite responses, they never re-sign with zone keys (except the 'replay' kinds, which present signatures the zone itself made for another validity window). One NS and one address per zone make the fan-out sequential; a run in which an ask waited out an upstream timeout although nothing was scripted to be dropped (lost loopback datagram / starved process) is discarded and repeated; every violation is re-run 5x from a cold state and reduced (a violating pair is replaced by one of its tampers when that alone violates) before it is reported. SERVFAIL is always an allowed answer (liveness is not judged): the unchanged tree answers SERVFAIL for NSEC empty-non-terminal NODATA and for wildcard NODATA of type DS under NSEC3.",
     "rule": "cases = (query, position on its untampered path, tamper kind) [+ the two pair families; thorough: all pairs of single tampers on distinct positions for every name x {A,DS} with DO]; 'nontrivial' = the scripted exchange was reached and the response actually sent differs from the honest one",
     "assumptions": [
         "one fixed hierarchy family (depth 3, one NS/address per zone, QNAME minimisation off), not all hierarchies",
